@@ -3,6 +3,7 @@ use noodles_bgzf as bgzf;
 use noodles_core::region::Interval;
 use noodles_csi as csi;
 use noodles_csi::binning_index::index::reference_sequence::bin::Chunk;
+use noodles_vcf::{self as vcf, variant::Record as _};
 use tokio::io::{self, AsyncRead, AsyncSeek};
 
 use super::Reader;
@@ -11,27 +12,30 @@ use crate::Record;
 /// An async reader over records of an async BCF reader that intersects a given region.
 ///
 /// This is created by calling [`Reader::query`].
-pub struct Query<'r, R>
+pub struct Query<'r, 'h, R>
 where
     R: AsyncRead + AsyncSeek,
 {
     reader: Reader<csi::r#async::io::Query<'r, R>>,
+    header: &'h vcf::Header,
     reference_sequence_id: usize,
     interval: Interval,
 }
 
-impl<'r, R> Query<'r, R>
+impl<'r, 'h, R> Query<'r, 'h, R>
 where
     R: AsyncRead + AsyncSeek + Unpin,
 {
     pub(super) fn new(
         inner: &'r mut bgzf::r#async::io::Reader<R>,
         chunks: Vec<Chunk>,
+        header: &'h vcf::Header,
         reference_sequence_id: usize,
         interval: Interval,
     ) -> Self {
         Self {
             reader: Reader::from(csi::r#async::io::Query::new(inner, chunks)),
+            header,
             reference_sequence_id,
             interval,
         }
@@ -42,7 +46,12 @@ where
             match self.reader.read_record(record).await? {
                 0 => return Ok(0),
                 n => {
-                    if intersects(record, self.reference_sequence_id, self.interval)? {
+                    if intersects(
+                        self.header,
+                        record,
+                        self.reference_sequence_id,
+                        self.interval,
+                    )? {
                         return Ok(n);
                     }
                 }
@@ -63,19 +72,29 @@ where
 }
 
 fn intersects(
+    header: &vcf::Header,
     record: &Record,
     chromosome_id: usize,
     region_interval: Interval,
 ) -> io::Result<bool> {
     let id = record.reference_sequence_id()?;
 
+    if id != chromosome_id {
+        return Ok(false);
+    }
+
+    if region_interval.start().is_none() && region_interval.end().is_none() {
+        return Ok(true);
+    }
+
     let Some(start) = record.variant_start().transpose()? else {
         return Ok(false);
     };
 
-    let end = record.end()?;
+    // The end position is derived like the blocking reader does, not from `rlen`.
+    let end = record.variant_end(header)?;
 
     let record_interval = Interval::from(start..=end);
 
-    Ok(id == chromosome_id && record_interval.intersects(region_interval))
+    Ok(record_interval.intersects(region_interval))
 }
